@@ -44,8 +44,8 @@ Definition dhd_delta (N i : nat) (vec : L) : L :=
 (* DHDUSparse(i, j, nqubits) @ vec:  shape (2**i, 2, 2**(j-i-1), 2, 2**(nqubits-j-1));
      result[:, :, 0] = 0.0 ; result[:, :, 1, :, 0] = 0.0 *)
 Definition dhd_U (N i j : nat) (vec : L) : L :=
-  let d4 := 2 ^ (N - j - 1) in
-  let d2 := 2 ^ (j - i - 1) * (2 * d4) in
+  let d4 := (2 ^ (N - j - 1))%nat in
+  let d2 := (2 ^ (j - i - 1) * (2 * d4))%nat in
   tab (length vec) (fun k =>
     if co1 2 d2 k =? 0 then zero else if co1 2 d4 k =? 0 then zero else get vec k).
 
